@@ -16,6 +16,7 @@ import T2N.Model.Langs
 import T2N.Lemmas.LangFacts
 import T2N.Lemmas.Agree
 import T2N.Lemmas.SimpleCC
+import T2N.Lemmas.Lift
 
 namespace T2N.C07
 open T2N
@@ -396,5 +397,187 @@ example : spanWords (scanCfg En.lang zeroThr) (wordTokens exPhrase) 0 3 = [w!"on
 
 example : text2digitsWords En.lang (spanWords (scanCfg En.lang zeroThr) (wordTokens exPhrase) 0 3) = .ok w!"100" := by
   decide +kernel
+
+end T2N.C07
+
+/-! ## ——— C07, clauses 2 and 3 (block added by task `lift`; proofs in T2N/Lemmas/Lift.lean) ———
+
+"Any phrase the validator accepts is seen by the scanner (threshold 0, no ambiguity annotation) as
+exactly one number with the same digits, so two numbers that do not combine are never validated as
+one. With threshold 0, every word that is a valid number on its own and was not set aside by the
+language's ambiguity rules lies inside some reported occurrence."
+
+Vocabulary (T2N/Lemmas/Lift.lean): `wordsOf cfg toks` = the lowercase texts of the tokens that the
+scanner does not skip; `IdleTok` = a token that opens no number (skipped, hinted `nan`, or its word is
+not accepted by the fresh builder); `PlainTok` = a token that ends a number (skipped, hinted `nan`, or
+its word is refused by the parser in every state with an error other than `Incomplete`: `Lang.Rejects`);
+`idleB` = `IdleTok` as a Boolean; `NeverInc l w` = the language never answers `Incomplete` for `w`. -/
+
+namespace T2N.C07
+open T2N T2N.Lift
+
+/-- **C07 (a valid phrase is exactly one occurrence)**, any language satisfying `LangAgree`.
+`core` = the tokens of the phrase (word tokens, with skipped tokens — white space, `-` — interleaved at
+will; the last one is a word token), `P` = what precedes (opens no number), `Q` = what follows (ends the
+number). No pause hints (`hsep`), threshold 0 (`hthr`), no token of the phrase is hinted `nan`, no word
+of the phrase is the decimal separator. If `text2digits` accepts the words of the phrase with digits
+`d`, `find_numbers` returns exactly one occurrence, with text `d`, the value and ordinal flag of the
+builder the validator reached, ending after the last word of the phrase and starting at its first word
+that the fresh builder accepts (leading conjunctions answered `Incomplete` stay outside). -/
+theorem C07_valid_is_one (cfg : ScanCfg) (hl : LangAgree cfg.lang) (hsep : ∀ x y, cfg.sep x y = false)
+    (hthr : ∀ n, cfg.thrLt n = false) (P core Q : List Tok) (d : Word)
+    (hP : ∀ t ∈ P, IdleTok cfg t) (hQ : ∀ t ∈ Q, PlainTok cfg t)
+    (hcore : ∀ t ∈ core, Scanner.isSkipped cfg t = false → t.nan = false ∧ cfg.lang.isDecSep t.lower = false)
+    (hlast : ∀ t ∈ core.getLast?, Scanner.isSkipped cfg t = false)
+    (h : text2digitsWords cfg.lang (wordsOf cfg core) = .ok d) :
+    ∃ ds v, execGroup cfg.lang.apply (wordsOf cfg core) = .ok ds ∧ cfg.lang.formatW ds = .ok (d, v) ∧
+      findNumbers cfg (P ++ core ++ Q) =
+        .ok [⟨P.length + (core.takeWhile (idleB cfg)).length, P.length + core.length, d, v, ds.isOrdinal⟩] :=
+  valid_is_one_general cfg hl hsep hthr P core Q d hP hQ hcore hlast h
+
+/-- … when moreover the first token of the phrase is a word that the fresh builder accepts (always the
+case in en, fr, es, pt, it; not for a leading `und` / `en` in de, nl), the occurrence is the phrase. -/
+theorem C07_valid_is_one_first (cfg : ScanCfg) (hl : LangAgree cfg.lang) (hsep : ∀ x y, cfg.sep x y = false)
+    (hthr : ∀ n, cfg.thrLt n = false) (P core Q : List Tok) (d : Word)
+    (hP : ∀ t ∈ P, IdleTok cfg t) (hQ : ∀ t ∈ Q, PlainTok cfg t)
+    (hcore : ∀ t ∈ core, Scanner.isSkipped cfg t = false → t.nan = false ∧ cfg.lang.isDecSep t.lower = false)
+    (hhead : ∀ t ∈ core.head?, Scanner.isSkipped cfg t = false ∧ (cfg.lang.apply t.lower DS.new).1 = none)
+    (hlast : ∀ t ∈ core.getLast?, Scanner.isSkipped cfg t = false)
+    (h : text2digitsWords cfg.lang (wordsOf cfg core) = .ok d) :
+    ∃ ds v, execGroup cfg.lang.apply (wordsOf cfg core) = .ok ds ∧ cfg.lang.formatW ds = .ok (d, v) ∧
+      findNumbers cfg (P ++ core ++ Q) = .ok [⟨P.length, P.length + core.length, d, v, ds.isOrdinal⟩] :=
+  valid_is_one cfg hl hsep hthr P core Q d hP hQ hcore hhead hlast h
+
+/-- **C07 (a valid phrase given as words)**: `toks = wordTokens ws` (the words separated by single
+spaces), first word accepted by the fresh builder: one occurrence spanning all tokens. -/
+theorem C07_valid_is_one_words (cfg : ScanCfg) (hl : LangAgree cfg.lang) (hsep : ∀ x y, cfg.sep x y = false)
+    (hthr : ∀ n, cfg.thrLt n = false) (hspace : cfg.cc.isWhitespace ' ' = true) (ws : List Word) (d : Word)
+    (hws : ∀ w ∈ ws, Scanner.isSkipped cfg (wtok w) = false ∧ cfg.lang.isDecSep w = false)
+    (hfirst : ∀ w ∈ ws.head?, (cfg.lang.apply w DS.new).1 = none)
+    (h : text2digitsWords cfg.lang ws = .ok d) :
+    ∃ ds v, execGroup cfg.lang.apply ws = .ok ds ∧ cfg.lang.formatW ds = .ok (d, v) ∧
+      findNumbers cfg (wordTokens ws) = .ok [⟨0, (wordTokens ws).length, d, v, ds.isOrdinal⟩] :=
+  valid_is_one_words cfg hl hsep hthr hspace ws d hws hfirst h
+
+/-- **C07 for the seven interpreters**: the hypothesis on the decimal separator disappears (a phrase
+that validates contains none: `apply` refuses it in every state). -/
+theorem C07_valid_is_one_builtin (cfg : ScanCfg) (hl : cfg.lang ∈ allLangs) (hsep : ∀ x y, cfg.sep x y = false)
+    (hthr : ∀ n, cfg.thrLt n = false) (P core Q : List Tok) (d : Word)
+    (hP : ∀ t ∈ P, IdleTok cfg t) (hQ : ∀ t ∈ Q, PlainTok cfg t)
+    (hcore : ∀ t ∈ core, Scanner.isSkipped cfg t = false → t.nan = false)
+    (hlast : ∀ t ∈ core.getLast?, Scanner.isSkipped cfg t = false)
+    (h : text2digitsWords cfg.lang (wordsOf cfg core) = .ok d) :
+    ∃ ds v, execGroup cfg.lang.apply (wordsOf cfg core) = .ok ds ∧ cfg.lang.formatW ds = .ok (d, v) ∧
+      findNumbers cfg (P ++ core ++ Q) =
+        .ok [⟨P.length + (core.takeWhile (idleB cfg)).length, P.length + core.length, d, v, ds.isOrdinal⟩] :=
+  valid_is_one_builtin cfg hl (C07_langAgree_all cfg.lang hl) hsep hthr P core Q d hP hQ hcore hlast h
+
+/-- **C07 (two numbers that do not combine are never validated as one)**: if the scanner does not see
+exactly one occurrence in the phrase, the validator rejects it. -/
+theorem C07_not_one_not_valid (cfg : ScanCfg) (hl : LangAgree cfg.lang) (hsep : ∀ x y, cfg.sep x y = false)
+    (hthr : ∀ n, cfg.thrLt n = false) (toks : List Tok) (occs : List Occ)
+    (htoks : ∀ t ∈ toks, Scanner.isSkipped cfg t = false → t.nan = false ∧ cfg.lang.isDecSep t.lower = false)
+    (hlast : ∀ t ∈ toks.getLast?, Scanner.isSkipped cfg t = false)
+    (hf : findNumbers cfg toks = .ok occs) (hlen : occs.length ≠ 1) (d : Word) :
+    text2digitsWords cfg.lang (wordsOf cfg toks) ≠ .ok d := by
+  intro h
+  obtain ⟨ds, v, _, _, hfind⟩ := valid_is_one_general cfg hl hsep hthr [] toks [] d
+    (fun _ h => by cases h) (fun _ h => by cases h) htoks hlast h
+  rw [List.nil_append, List.append_nil, hf] at hfind
+  injection hfind with hfind
+  rw [hfind] at hlen
+  exact hlen rfl
+
+/-- **C07 (nothing valid is left spelled out at threshold 0)**, any language satisfying `LangAgree`, any
+pause hints (`hcomma`: no hints, or the forced stop `","` is never answered `Incomplete` in decimal
+mode). A token that is not skipped, not set aside (`nan = false`), whose word is a valid number on its
+own and is never answered `Incomplete` by the language, lies inside some reported occurrence. -/
+theorem C07_nothing_left (cfg : ScanCfg) (hl : LangAgree cfg.lang) (hthr : ∀ n, cfg.thrLt n = false)
+    (toks : List Tok) (occs : List Occ) (h : findNumbers cfg toks = .ok occs) (i : Nat) (hi : i < toks.length)
+    (d : Word) (hw : text2digitsWords cfg.lang [toks[i].lower] = .ok d)
+    (hn : toks[i].nan = false) (hs : Scanner.isSkipped cfg toks[i] = false)
+    (hni : NeverInc cfg.lang toks[i].lower)
+    (hcomma : (∀ x y, cfg.sep x y = false) ∨ ∀ b, (cfg.lang.applyDecimal [','] b).1 ≠ some .incomplete) :
+    ∃ o ∈ occs, o.start ≤ i ∧ i < o.stop :=
+  nothing_left cfg hl hthr toks occs h i hi hs hn (valid_alone hw) hni hcomma
+
+/-- **C07 (a word valid on its own is never answered `Incomplete`)**, the seven interpreters: the extra
+hypothesis of `C07_nothing_left` always holds for them. (`Incomplete` is the answer of conjunction words
+and of compounds ending on one; neither is ever accepted.) -/
+theorem C07_valid_never_incomplete (l : Lang) (hl : l ∈ allLangs) (w : Word)
+    (hv : (l.apply w DS.new).1 = none) : NeverInc l w :=
+  neverInc_builtin l hl w hv
+
+/-- **C07 (nothing valid is left spelled out), the seven interpreters**: any character classes, any pause
+hints, threshold 0. -/
+theorem C07_nothing_left_builtin (cfg : ScanCfg) (hl : cfg.lang ∈ allLangs) (hthr : ∀ n, cfg.thrLt n = false)
+    (toks : List Tok) (occs : List Occ) (h : findNumbers cfg toks = .ok occs) (i : Nat) (hi : i < toks.length)
+    (d : Word) (hw : text2digitsWords cfg.lang [toks[i].lower] = .ok d)
+    (hn : toks[i].nan = false) (hs : Scanner.isSkipped cfg toks[i] = false) :
+    ∃ o ∈ occs, o.start ≤ i ∧ i < o.stop :=
+  nothing_left cfg (C07_langAgree_all cfg.lang hl) hthr toks occs h i hi hs hn (valid_alone hw)
+    (neverInc_builtin cfg.lang hl _ (valid_alone hw))
+    (Or.inr (comma_dec_builtin cfg.lang hl (C07_langAgree_all cfg.lang hl)))
+
+/-! non-vacuity.
+* `two three` does not validate, and the scanner sees two occurrences;
+* `one hundred and twenty-one` validates to `121` and is one occurrence over all its 7 tokens, also inside
+  `foo one hundred and twenty-one bar` (tokens 2 … 8);
+* German `und zwanzig` validates to `20`; the occurrence is the token of `zwanzig` only;
+* in `foo two bar three` both `two` and `three` are reported. -/
+
+example : (findNumbers (scanCfg En.lang zeroThr) (wordTokens [w!"two", w!"three"])).toOption.map
+    (fun os => os.map fun o => (o.start, o.stop, o.text)) = some [(0, 1, w!"2"), (2, 3, w!"3")] := by
+  decide +kernel
+
+example : text2digitsWords En.lang [w!"two", w!"three"] = .err .overlap := by decide +kernel
+
+example : text2digitsWords En.lang [w!"one", w!"hundred", w!"and", w!"twenty-one"] = .ok w!"121" := by
+  decide +kernel
+
+example : (findNumbers (scanCfg En.lang zeroThr)
+      (wordTokens [w!"foo", w!"one", w!"hundred", w!"and", w!"twenty-one", w!"bar"])).toOption.map
+    (fun os => os.map fun o => (o.start, o.stop, o.text)) = some [(2, 9, w!"121")] := by
+  decide +kernel
+
+example : text2digitsWords De.lang [w!"und", w!"zwanzig"] = .ok w!"20" := by decide +kernel
+
+example : (findNumbers (scanCfg De.lang zeroThr) (wordTokens [w!"und", w!"zwanzig"])).toOption.map
+    (fun os => os.map fun o => (o.start, o.stop, o.text)) = some [(2, 3, w!"20")] := by
+  decide +kernel
+
+example : ((wordTokens [w!"und", w!"zwanzig"]).takeWhile (idleB (scanCfg De.lang zeroThr))).length = 2 := by
+  decide +kernel
+
+/-- the hypotheses of `C07_valid_is_one_words` hold for `one hundred and twenty-one` -/
+example : ∃ ds v, execGroup En.lang.apply [w!"one", w!"hundred", w!"and", w!"twenty-one"] = .ok ds ∧
+    En.lang.formatW ds = .ok (w!"121", v) ∧
+    findNumbers (scanCfg En.lang zeroThr) (wordTokens [w!"one", w!"hundred", w!"and", w!"twenty-one"]) =
+      .ok [⟨0, 7, w!"121", v, ds.isOrdinal⟩] :=
+  C07_valid_is_one_words (scanCfg En.lang zeroThr) C07_langAgree_en (fun _ _ => rfl) (fun _ => rfl) rfl
+    [w!"one", w!"hundred", w!"and", w!"twenty-one"] w!"121" (by decide +kernel) (by decide +kernel)
+    (by decide +kernel)
+
+/-- a word refused in every state: `foo` -/
+example : En.lang.Rejects w!"foo" :=
+  Lang.rejects_of_apply En.lang w!"foo" (fun _ => ⟨.nan, rfl, by intro h; cases h⟩)
+    (fun _ => ⟨.nan, rfl, by intro h; cases h⟩) rfl
+
+/-- `NeverInc` holds for `two` -/
+example : NeverInc En.lang w!"two" := C07_valid_never_incomplete En.lang (List.mem_cons_self ..) w!"two" (by decide +kernel)
+
+example : (findNumbers (scanCfg En.lang zeroThr) (wordTokens [w!"foo", w!"two", w!"bar", w!"three"])).toOption.map
+    (fun os => os.map fun o => (o.start, o.stop, o.text)) = some [(2, 3, w!"2"), (6, 7, w!"3")] := by
+  decide +kernel
+
+/-- the hypotheses of `C07_valid_is_one_builtin` hold for German `und zwanzig` (leading conjunction) -/
+example : ∃ ds v, execGroup De.lang.apply (wordsOf (scanCfg De.lang zeroThr) (wordTokens [w!"und", w!"zwanzig"])) = .ok ds ∧
+    De.lang.formatW ds = .ok (w!"20", v) ∧
+    findNumbers (scanCfg De.lang zeroThr) ([] ++ wordTokens [w!"und", w!"zwanzig"] ++ []) =
+      .ok [⟨0 + ((wordTokens [w!"und", w!"zwanzig"]).takeWhile (idleB (scanCfg De.lang zeroThr))).length,
+        0 + (wordTokens [w!"und", w!"zwanzig"]).length, w!"20", v, ds.isOrdinal⟩] :=
+  C07_valid_is_one_builtin (scanCfg De.lang zeroThr) (by simp [allLangs, scanCfg]) (fun _ _ => rfl) (fun _ => rfl)
+    [] (wordTokens [w!"und", w!"zwanzig"]) [] w!"20" (fun _ h => by cases h) (fun _ h => by cases h)
+    (by decide +kernel) (by decide +kernel) (by decide +kernel)
 
 end T2N.C07
